@@ -454,9 +454,19 @@ impl GitignoreBuilder {
         if line.starts_with("#") {
             return Ok(self);
         }
-        if !line.ends_with("\\ ") {
-            line = line.trim_right();
-        }
+        // Trailing whitespace is ignored, unless it is a space quoted with a
+        // backslash (which itself isn't quoted, hence the parity check). That
+        // one space is kept, whatever follows it is still dropped.
+        let trimmed = line.trim_right();
+        let backslashes =
+            trimmed.bytes().rev().take_while(|&b| b == b'\\').count();
+        line = if backslashes % 2 == 1
+            && line[trimmed.len()..].starts_with(' ')
+        {
+            &line[..trimmed.len() + 1]
+        } else {
+            trimmed
+        };
         if line.is_empty() {
             return Ok(self);
         }
